@@ -754,6 +754,110 @@ class OpsFamily(Family):
                 b.append('%s.typ == Array ==> len(%s.value.([]*Variant)) <= 3' % (v, v))
         return b
 
+    @classmethod
+    def bounded_source(cls, prog, fname):
+        src = '''package variants
+
+import (
+	"math"
+	"testing"
+	"time"
+)
+
+// bounded stand-in: all 21 operators x all pairs of sample values (several per variant type, including
+// 0, negatives, NaN, infinities) x both managers: never a panic, exactly one of result/error, host arithmetic
+// for same-type numeric operands, and the comparison-consistency laws of the statement
+func bsamples() []*Variant {
+	nan := math.NaN()
+	return []*Variant{EmptyVariant(), VariantFromInteger(0), VariantFromInteger(3), VariantFromInteger(-2), VariantFromInteger(10), VariantFromInteger(40),
+		VariantFromLong(0), VariantFromLong(5), VariantFromLong(-7), VariantFromFloat(1.5), VariantFromFloat(float32(nan)), VariantFromFloat(0),
+		VariantFromDouble(2.25), VariantFromDouble(nan), VariantFromDouble(math.Inf(1)), VariantFromDouble(0), VariantFromDouble(-3),
+		VariantFromString("a"), VariantFromString("b"), VariantFromBoolean(true), VariantFromBoolean(false),
+		VariantFromDateTime(time.Unix(100, 0)), VariantFromDateTime(time.Unix(200, 0)), VariantFromTimeSpan(time.Second), VariantFromTimeSpan(-time.Millisecond),
+		VariantFromArray([]*Variant{VariantFromInteger(1), VariantFromInteger(2)}), VariantFromArray(nil)}
+}
+
+func bcall(t *testing.T, what string, f func() (*Variant, error)) (r *Variant, err error, ok bool) {
+	defer func() {
+		if p := recover(); p != nil { t.Errorf("%s: panic: %v", what, p); ok = false }
+	}()
+	r, err = f()
+	if (r != nil) == (err != nil) { t.Errorf("%s: result %v and error %v", what, r, err); return r, err, false }
+	return r, err, true
+}
+
+func TestVerifReplay(t *testing.T) {
+	for mi, ops := range []IVariantOperations{NewTypeUnsafeVariantOperations(), NewTypeSafeVariantOperations()} {
+		type binop struct { name string; f func(a, b *Variant) (*Variant, error) }
+		bin := []binop{{"Add", ops.Add}, {"Sub", ops.Sub}, {"Mul", ops.Mul}, {"Div", ops.Div}, {"Mod", ops.Mod}, {"Pow", ops.Pow}, {"And", ops.And}, {"Or", ops.Or},
+			{"Xor", ops.Xor}, {"Lsh", ops.Lsh}, {"Rsh", ops.Rsh}, {"Equal", ops.Equal}, {"NotEqual", ops.NotEqual}, {"More", ops.More}, {"Less", ops.Less},
+			{"MoreEqual", ops.MoreEqual}, {"LessEqual", ops.LessEqual}, {"In", ops.In}, {"GetElement", ops.GetElement}}
+		for _, a := range bsamples() {
+			bcall(t, "Not", func() (*Variant, error) { return ops.Not(a) })
+			bcall(t, "Negative", func() (*Variant, error) { return ops.Negative(a) })
+			for _, b := range bsamples() {
+				res := map[string]*Variant{}
+				for _, o := range bin {
+					o := o
+					what := o.name
+					r, err, ok := bcall(t, what, func() (*Variant, error) { return o.f(a, b) })
+					if ok && err == nil { res[o.name] = r }
+					if !ok || err != nil || a.Type() == Null || b.Type() == Null { continue }
+					if a.Type() == Integer && b.Type() == Integer {
+						x, y := a.AsInteger(), b.AsInteger()
+						want, has := 0, true
+						switch o.name {
+						case "Add": want = x + y
+						case "Sub": want = x - y
+						case "Mul": want = x * y
+						case "Div": want = x / y
+						case "Mod": want = x % y
+						case "And": want = x & y
+						case "Or": want = x | y
+						case "Xor": want = x ^ y
+						case "Lsh": want = x << y
+						case "Rsh": want = x >> y
+						default: has = false
+						}
+						if has && (r.Type() != Integer || r.AsInteger() != want) { t.Errorf("manager %d: %d %s %d = %v, host arithmetic gives %d", mi, x, o.name, y, r, want) }
+					}
+					if o.name == "Pow" && (a.Type() == Integer || a.Type() == Long || a.Type() == Double) && b.Type() == a.Type() {
+						toF := func(v *Variant) float64 { c, _ := NewTypeUnsafeVariantOperations().Convert(v, Double); return c.AsDouble() }
+						want := math.Pow(toF(a), toF(b))
+						if r.Type() != Double || (r.AsDouble() != want && !(math.IsNaN(want) && math.IsNaN(r.AsDouble()))) { t.Errorf("manager %d: %v ^ %v = %v, true exponentiation gives %v", mi, toF(a), toF(b), r, want) }
+					}
+					if a.Type() == Double && b.Type() == Double {
+						x, y := a.AsDouble(), b.AsDouble()
+						var want, has = false, true
+						switch o.name {
+						case "Equal": want = x == y
+						case "NotEqual": want = x != y
+						case "More": want = x > y
+						case "Less": want = x < y
+						case "MoreEqual": want = x >= y
+						case "LessEqual": want = x <= y
+						default: has = false
+						}
+						if has && (r.Type() != Boolean || r.AsBoolean() != want) { t.Errorf("manager %d: %v %s %v = %v, host arithmetic gives %v", mi, x, o.name, y, r, want) }
+					}
+				}
+				// comparison consistency for equal types
+				if a.Type() == b.Type() && a.Type() != Null {
+					bv := func(n string) (bool, bool) { r, ok := res[n]; if !ok || r.Type() != Boolean { return false, false }; return r.AsBoolean(), true }
+					lt, ok1 := bv("Less"); eq, ok2 := bv("Equal"); le, ok3 := bv("LessEqual"); ne, ok4 := bv("NotEqual")
+					if ok1 && ok2 && ok3 && le != (lt || eq) { t.Errorf("manager %d: a<=b is %v but a<b is %v and a=b is %v (types %d)", mi, le, lt, eq, a.Type()) }
+					if ok2 && ok4 && ne == eq { t.Errorf("manager %d: a<>b equals a=b", mi) }
+					if r2, err := ops.More(b, a); ok1 && err == nil && r2.Type() == Boolean && r2.AsBoolean() != lt { t.Errorf("manager %d: a<b is %v but b>a is %v", mi, lt, r2.AsBoolean()) }
+					gt, ok5 := bv("More"); ge, ok6 := bv("MoreEqual")
+					if ok5 && ok2 && ok6 && ge != (gt || eq) { t.Errorf("manager %d: a>=b is %v but a>b is %v and a=b is %v (types %d)", mi, ge, gt, eq, a.Type()) }
+				}
+			}
+		}
+	}
+}
+'''
+        return 'variants', src, 'all operators x all pairs of 27 sample values (every variant type; 0, negatives, NaN, +Inf) x both managers'
+
     def operand(self, vals, v):
         t = vals.get(v + '_t', 1)
         if not isinstance(t, int) or t < 0 or t > 10:
